@@ -41,12 +41,12 @@ def main(c):
             elif k == "t1":
                 t = (t // 86400) * 86400 + rnd.randrange(86400)          # another instant of the same day
             elif k == "body":
-                body = rnd.choice(["none", "-", g.hx(g.rbytes(rnd, rnd.choice([1, 64])))])
+                body = rnd.choice(["none", "none:7", "-", g.hx(g.rbytes(rnd, rnd.choice([1, 64])))])
         else:
             var = rnd.choice(["s3h", "s3q", "svc", "ddb"])
             t = rnd.choice(times + [rnd.randint(0, 4102444800)])
             keyid, secret, region = rs(UNRES, ln()), rs(PRINT, ln()), rs(UNRES, rnd.choice([0, 1, 3, 4, 9, 14, 200]))
-            body = rnd.choice(["none", "none", "-", g.hx(g.rbytes(rnd, rnd.choice([1, 55, 64, 1000, 4000])))])
+            body = rnd.choice(["none", "none:%d" % rnd.choice([1, 5, 64, 4096, 1 << 30]), "-", g.hx(g.rbytes(rnd, rnd.choice([1, 55, 64, 1000, 4000])))])
             if var in ("s3h", "s3q"):
                 a, b, cc = rnd.choice(["GET", "PUT", "HEAD", "DELETE", rs(UNRES, 3)]), rs(UNRES, ln()), "/" + rs(UNRES + "/", ln())
             elif var == "svc":
